@@ -125,6 +125,9 @@ type localDef struct {
 	fr     *core.Frame
 	sec    int  // section instance (index of its acquire event) the definition was made in, -1 outside
 	shared bool // the defining expression reads lock-guarded or closure-shared state
+	// alias: the variable is a field of a local struct value that was assigned as a whole
+	// (snap = curr): it equals that (virtual) local of the source struct
+	alias *types.Var
 }
 
 // fbuilder turns condition expressions into formulas.
@@ -139,7 +142,7 @@ type fbuilder struct {
 
 // stateKey names a piece of lock-guarded state: a struct field or a local shared between closures.
 func (b *fbuilder) stateKey(e ast.Expr, fr *core.Frame) (string, types.Type) {
-	if fv := fieldVar(e, fr); fv != nil {
+	if fv := fieldVar(e, fr); fv != nil && localFieldVar(e, fr) == nil {
 		return core.FieldName(fv), fv.Type()
 	}
 	// a captured local is lock-guarded state only when the lock is a local of the same function:
@@ -147,6 +150,7 @@ func (b *fbuilder) stateKey(e ast.Expr, fr *core.Frame) (string, types.Type) {
 	// parameters (write, pre …) are per-invocation values and differ between waiter and actor.
 	if v := identVar(e, fr); v != nil && !v.IsField() && b.shared != nil && b.shared(v) && b.lock != nil && !b.lock.IsField() {
 		if d1, d2 := b.c.Prog.EnclosingDecl(v.Pos()), b.c.Prog.EnclosingDecl(b.lock.Pos()); d1 != nil && d1 == d2 {
+			// (named by the declaring function and the variable's role, not its line)
 			return "local:" + v.Name() + "@" + b.c.Prog.Pos(v.Pos()), v.Type()
 		}
 	}
@@ -244,6 +248,22 @@ func (b *fbuilder) build(e ast.Expr, fr *core.Frame) *formula {
 		}
 		return &formula{kind: fAtom, name: b.side + ":var:" + v.Name() + "@" + b.c.Prog.Pos(v.Pos())}
 	case *ast.SelectorExpr:
+		if v := localFieldVar(x, fr); v != nil && isBasic(v.Type(), types.IsBoolean) {
+			// a bool field of a local struct value: as a bool local
+			if d, ok := b.defs[v]; ok {
+				if d.expr == nil {
+					return &formula{kind: fAtom, name: b.side + ":var:" + v.Name() + "@" + b.c.Prog.Pos(v.Pos())}
+				}
+				b.depth++
+				f := b.build(d.expr, d.fr)
+				b.depth--
+				return f
+			}
+			if key, _ := b.stateKey(x, fr); key != "" {
+				return &formula{kind: fAtom, name: key, state: key}
+			}
+			return &formula{kind: fAtom, name: b.side + ":var:" + v.Name() + "@" + b.c.Prog.Pos(v.Pos())}
+		}
 		if key, t := b.stateKey(x, fr); key != "" && isBasic(t, types.IsBoolean) {
 			return &formula{kind: fAtom, name: key, state: key}
 		}
@@ -282,6 +302,7 @@ var r2bFrozen = map[string]string{
 }
 
 func (s *r2State) sharedLocal(v *types.Var) bool {
+	v = baseVar(v)
 	d := s.c.Prog.EnclosingDecl(v.Pos())
 	if d == nil {
 		return false
